@@ -408,6 +408,7 @@ def monitor_case(ops, obs, which):
                     got = (o.get("al"), o.get("di"), sorted(x_ for x_ in parse_fl(o.get("fl")) if x_))
                     if got != (b["al"], b["di"], b["flset"]):
                         V("C13", "last-owner-release", f"{b['last_owner']} (the owned handle outlived every arena value) should leave (al,di,fl) = {(b['al'], b['di'], b['flset'])}; the reopened file has {got}", i)
+                        V("C05", "last-owner-release", f"the file does not hold the state the arena ended in: {b['last_owner']} (an owned handle as the last owner) should leave (al,di,fl) = {(b['al'], b['di'], b['flset'])}; the reopened file has {got}", i)
                     b = None
                 if b is not None and "flset" in b:
                     b = None    # (expectation of a `close_last`, not judged on this degenerate arena)
@@ -790,6 +791,9 @@ def monitor_case(ops, obs, which):
         # ---- C20 monotone (below 2^32)
         if op not in ("clear", "inc_discarded", "reopen") and di < pdi and pdi + 0 < U32 - (1 << 20):
             V("C20", "decrease", f"discarded decreased {pdi} -> {di} at {ops[i].strip()}", i)
+        # ---- C10: nothing is on the list of a cleared arena (every segment would lie above the cursor)
+        if op == "clear" and r == "ok" and None not in fl and fl:
+            V("C10", "list-survives-clear", f"after clear the free list still holds {fl} (cursor {al})", i)
         # ---- C10 remainder rule: whatever is linked can hold a node plus the minimum segment size in force
         if None not in fl and None not in pfl and not rewound and al <= cp and not fstate.get("tampered") and op not in ("reopen", "set_minseg", "clear"):
             ms_ = int(o.get("ms", "0"))
